@@ -15,6 +15,7 @@ def rebind(test_case: Any, picks: list[int]) -> tuple[Any, int]:
     out = tc.TestCase()
     rename: dict[str, str] = {}
     by_type: dict[Any, list[str]] = {}
+    by_callee: dict[int, str] = {}  # id(accessible) -> name bound by the latest earlier call of the same callable
     n_rebound = 0
     for idx, stmt in enumerate(test_case.statements()):
         bv = stmt.bound_variable
@@ -23,13 +24,22 @@ def rebind(test_case: Any, picks: list[int]) -> tuple[Any, int]:
         pick = picks[idx % len(picks)] if picks else 0
         if bv is not None and stmt.bound_type is not None:
             earlier = by_type.get(stmt.bound_type, [])
-            if earlier and pick % 3 == 0:
+            same_callee = by_callee.get(id(stmt.accessible)) if stmt.accessible is not None else None
+            if same_callee is not None and pick % 3 != 2:
+                # "result = f(a); ...; result = f(b)": the second call of the same callable re-uses the result name
+                new_bound = same_callee
+                mapping[bv] = new_bound
+                rename[bv] = new_bound
+                n_rebound += 1
+            elif earlier and pick % 3 == 0:
                 new_bound = earlier[(pick // 3) % len(earlier)]
                 mapping[bv] = new_bound
                 rename[bv] = new_bound
                 n_rebound += 1
             else:
                 by_type.setdefault(stmt.bound_type, []).append(bv)
+        if stmt.accessible is not None and new_bound is not None:
+            by_callee[id(stmt.accessible)] = new_bound
         node = stmt.node.visit(tc._VariableRenamer(mapping)) if mapping else stmt.node  # noqa: SLF001
         out.add_statement(tc.Statement(node=node, bound_variable=new_bound, bound_type=stmt.bound_type,
                                        assertions=[], accessible=stmt.accessible, ml_info=stmt.ml_info))
